@@ -523,6 +523,7 @@ def main_check(modname, tier, replay=None, survey=False):
         "budget_split": dict(coll.mode_hist),
         "label_histogram": dict(sorted(coll.tag_hist.items())),
         "open_findings_reproduced": {k: v for k, v in coll.finding_hits.items()},
+        "finding_examples": {k: v for k, v in coll.finding_example.items() if len(canon(v["case"])) < 6000},
         "excluded_from_core_by_construction": list(getattr(mod, "FRONTIER_KNOBS", ())),
         "unattributed_buckets": [{"bucket": k, "count": c, "replay": p} for k, p, c, _, _ in violations],
         "shards": nshards,
